@@ -3766,3 +3766,180 @@ def _check_shift(ctx, b, bb, o):
     else:
         ctx.bad(f"tcp::{short}|window-shift-unclamped", f"tcp {short}() stores `{show(o)[:70]}` into remote_win_shift without clamping it to 14: a receive buffer of exactly 1 GiB (the largest "
                 "new() accepts) gives shift 15, which the peer must read as 14 - the socket then accepts twice the window the peer understands as advertised", body=b, bb=bb)
+
+
+@rule('R11.12', ['C11', 'C17'], floor=1, clause='a listener that an aborted handshake returns to LISTEN listens on what listen() bound it to - address and port: process() restores listen_endpoint as a whole (the value saved before reset()), never a single field of it')
+def r11_12(ctx):
+    F = ctx.F
+    b = ctx.method(SOCK, 'process')
+    whole, part = [], []
+    for w in F.field_writes():
+        if w['fn'] != b.key or w['kind'] != 'store':
+            continue
+        ch = w.get('chain') or []
+        if (SOCK, 'listen_endpoint') not in ch:
+            continue
+        if ch[-1] == (SOCK, 'listen_endpoint'):
+            whole.append(w)
+        else:
+            part.append(w)
+    ctx.need(whole or part, "store to listen_endpoint in tcp process() (RST in SYN-RECEIVED)")
+    if part:
+        ctx.bad("tcp::process|listen-endpoint-partly-restored", f"process() writes only `{part[0]['field']}` of listen_endpoint when a RST returns a listener to LISTEN (reset() has cleared the rest): "
+                "a socket bound with listen((addr, port)) afterwards accepts a SYN addressed to any other address of the interface", body=b, bb=part[0]['bb'])
+    for w in whole:
+        o = strip(simplify(store_origin(F, b, w)))
+        if any(l.endswith('tcp::Socket.listen_endpoint') for l in leafs(o)):
+            ctx.ok(('process', 'listen_endpoint restored whole'), sample=dict(store='self.listen_endpoint = <value saved before reset()>'))
+        else:
+            ctx.bad("tcp::process|listen-endpoint-not-the-saved-one", f"process() stores `{show(o)[:60]}` into listen_endpoint, not the endpoint the socket was listening on", body=b, bb=w['bb'])
+
+
+@rule('R08.12', ['C08', 'C12', 'C10'], floor=6, clause='the transmit half of a checksum setting governs what is filled in and the receive half what is verified: no fill_checksum() is decided by Checksum::rx() and no verify_checksum() by Checksum::tx()')
+def r08_12(ctx):
+    F = ctx.F
+    n = 0
+    for k, b in sorted(F.bodies.items()):
+        if '::test' in k or not (b.file or '').startswith('src/'):
+            continue
+        sites = [(x[0], (b.callee_name(x[1]) or '').rsplit('::', 1)[-1]) for x in b.calls()
+                 if (b.callee_name(x[1]) or '').rsplit('::', 1)[-1] in ('fill_checksum', 'verify_checksum')]
+        if not sites:
+            continue
+        wrong = {}
+        for bi, bl in enumerate(b.blocks):
+            if bl['cl'] or bl['t'][0] != 'switch':
+                continue
+            for tb, lab, f in cond_facts(F, b, bi):
+                if f[0] == 'bool' and f[2] is True:
+                    c = strip(f[1])
+                    if c[0] == 'call' and c[1].endswith('phy::Checksum::rx'):
+                        wrong.setdefault('fill_checksum', []).append((bi, tb, lab))
+                    if c[0] == 'call' and c[1].endswith('phy::Checksum::tx'):
+                        wrong.setdefault('verify_checksum', []).append((bi, tb, lab))
+        for bb, what in sites:
+            n += 1
+            es = wrong.get(what, [])
+            dom = [e for e in es if bb not in b.reachable(cut_edges={e})]
+            short = k.split('::{closure', 1)[0].rsplit('::', 2)[-2:] if '::' in k else [k]
+            if dom:
+                ctx.bad(f"{'::'.join(short)}|{what}-under-the-other-half", f"{k} calls {what}() under Checksum::{'rx' if what == 'fill_checksum' else 'tx'}(): with an asymmetric offload setting "
+                        "(Checksum::Tx or Checksum::Rx) the checksum is left wrong on transmit / not verified on receive", body=b, bb=bb)
+            else:
+                ctx.ok((k, what, bb))
+    ctx.need(n >= 6, f"fill_checksum / verify_checksum call sites (found {n})")
+
+
+@rule('R12.12', ['C12', 'C20', 'C09'], floor=1, clause='a reassembled datagram is handed out with exactly its total size: PacketAssembler::assemble answers buffer[..total_size], not the whole reassembly buffer (which keeps the tail of longer datagrams reassembled earlier)')
+def r12_12(ctx):
+    F = ctx.F
+    PA = 'iface::fragmentation::PacketAssembler'
+    b = ctx.method(PA, 'assemble')
+    n = 0
+    for bi, si, var in agg_sites(b, 'std::option::Option', ['Some']):
+        s = b.blocks[bi]['s'][si]
+        if not b.locals[s[1][0]]['ty'].startswith('std::option::Option<&'):
+            continue
+        n += 1
+        o = strip(simplify(F.origin.operand(b, s[2][2][0], bi, si)))
+        while o[0] in ('ref', 'deref'):
+            o = strip(o[1])
+        okc = False
+        if is_call(o, '::index') and len(o[2]) == 2:
+            rb = range_bounds(F, o[2][1])
+            if rb is not None and rb[0] in ('RangeTo', 'Range') and rb[2] is not None and any(l.endswith('PacketAssembler.total_size') for l in leafs(strip(simplify(rb[2])))):
+                okc = True
+        if okc:
+            ctx.ok(('assemble', 'cut at total_size'), sample=dict(fn='PacketAssembler::assemble', answers='buffer[..total_size]'))
+        else:
+            ctx.bad("PacketAssembler::assemble|not-cut-at-total-size", f"PacketAssembler::assemble answers `{show(o)[:60]}` instead of buffer[..total_size]: a datagram shorter than one reassembled "
+                    "before it in the same slot is delivered with the stale tail of the earlier one appended", body=b, bb=bi)
+    ctx.need(n >= 1, "Some(..) answer of PacketAssembler::assemble")
+
+
+@rule('R13.16', ['C13', 'C16'], floor=1, clause='has_neighbor() says "reachable without asking the neighbor cache" only on the medium that has no link-layer addresses (Medium::Ip): on Ethernet and IEEE 802.15.4 the answer comes from the cache, so a socket waiting for discovery stays silenced (poll_at = the back-off instant) instead of being polled at once again and again')
+def r13_16(ctx):
+    F = ctx.F
+    b = ctx.method(IFI, 'has_neighbor')
+    M = 'phy::Medium'
+    trues = []
+    for bi, bl in enumerate(b.blocks):
+        if bl['cl']:
+            continue
+        for s in bl['s']:
+            if s[0] == 'a' and s[1] == [0, []] and s[2][0] == 'use' and s[2][1][0] == 'k' and s[2][1][2] is True:
+                trues.append(bi)
+    ctx.need(trues, "the unconditional `true` answer of has_neighbor")
+    linked = set(F.variants(M) or []) - {'Ip'}
+    only_ip = lambda f: (f[0] == 'is' and f[3] == M and f[2] == 'Ip') or (f[0] == 'isnot' and f[3] == M and linked <= set(f[2]))
+    bad = unguarded(F, b, trues, only_ip)
+    if bad:
+        ctx.bad("has_neighbor|true-without-cache-on-a-link-layer-medium", "has_neighbor() answers true without consulting the neighbor cache on a medium other than Medium::Ip: a socket whose next hop "
+                "is unresolved on IEEE 802.15.4 (or Ethernet) is taken out of its discovery silence at every poll_at, which then answers `now` while the rate-limited cache lets nothing be sent", body=b, bb=bad[0][0], path=bad[0][1])
+    else:
+        ctx.ok(('has_neighbor', 'cache on link-layer media'), sample=dict(fn='has_neighbor', true_without_lookup='Medium::Ip only'))
+
+
+@rule('R20.12', ['C20', 'C10'], floor=1, clause='6LoWPAN: the size of the first fragment is computed from the same 125-octet frame limit as the later ones (minus MAC header and FRAG1 header): the frame-size constant in the frag1 computation of dispatch_sixlowpan is 125, the one the unfragmented test and fragn_size use')
+def r20_12(ctx):
+    F = ctx.F
+    ws = [w for w in F.field_writes() if w['field'] == 'sent_bytes' and w['kind'] == 'store' and 'dispatch_sixlowpan' in w['fn'] and '::test' not in w['fn']]
+    ctx.need(ws, "store to Fragmenter.sent_bytes in dispatch_sixlowpan")
+    n = 0
+    for w in ws:
+        b = F.body(w['fn'])
+        o = simplify(store_origin(F, b, w))
+        if not any(c[1].endswith('sixlowpan::frag::Repr::buffer_len') for c in _calls_in(o)):
+            continue
+        n += 1
+        big = sorted({const_of(x) for x in _consts(o) if (const_of(x) or 0) >= 100})
+        if big == [125]:
+            ctx.ok(('frag1_size', '125'), sample=dict(frag1_size='(125 - mac header - FRAG1 header + header_diff) / 8 * 8 - header_diff'))
+        else:
+            ctx.bad("dispatch_sixlowpan|frag1_size|frame-limit", f"dispatch_sixlowpan computes the size of the first fragment from the frame-size constant(s) {big} instead of 125: for some "
+                    "address / port combinations the FRAG1 frame comes out 126 or 127 octets long, beyond what an IEEE 802.15.4 frame can carry", body=b, bb=w['bb'])
+    ctx.need(n >= 1, "the frag1 size computation (sent_bytes = frag1_size)")
+
+
+@rule('R16.12', ['C16', 'C03'], floor=1, clause='a SLAAC default route is valid for exactly as long as the most recent router advertisement says: Slaac::add_route stores the lifetime it is given (a later advertisement with a shorter lifetime shortens the route)')
+def r16_12(ctx):
+    F = ctx.F
+    SL = 'iface::slaac::Slaac'
+    b = ctx.method(SL, 'add_route')
+    ws = [w for w in F.field_writes() if w['fn'] == b.key and w['kind'] == 'store' and w['field'] == 'valid_until']
+    n = 0
+    for w in ws:
+        n += 1
+        o = strip(simplify(store_origin(F, b, w)))
+        if o[0] == 'arg' and b.locals[o[1]]['ty'] == 'time::Instant':
+            ctx.ok(('add_route', 'valid_until', w['bb']), sample=dict(stores='route.valid_until = valid_until'))
+        else:
+            ctx.bad("Slaac::add_route|lifetime-not-the-advertised-one", f"Slaac::add_route stores `{show(o)[:60]}` as the route's lifetime instead of the one just advertised: a router that announces a "
+                    "shorter lifetime keeps its default route, and packets go on to the gateway of a route that has expired", body=b, bb=w['bb'])
+    for bi, si, var in agg_sites(b, 'iface::slaac::Route'):
+        s = b.blocks[bi]['s'][si]
+        names = s[2][1].get('fnames') or []
+        if 'valid_until' in names:
+            n += 1
+            o = strip(simplify(F.origin.operand(b, s[2][2][names.index('valid_until')], bi, si)))
+            if o[0] == 'arg':
+                ctx.ok(('add_route', 'new route', bi))
+            else:
+                ctx.bad("Slaac::add_route|new-route-lifetime", f"Slaac::add_route creates a route valid until `{show(o)[:60]}`", body=b, bb=bi)
+    ctx.need(n >= 1, "valid_until stores in Slaac::add_route")
+
+
+@rule('R02.17', ['C02', 'C17', 'C13'], floor=1, clause='process() arms the zero-window-probe timer only when data is queued (behind !tx_buffer.is_empty()): it never replaces another timer - the TIME-WAIT timer in particular - when there is nothing to probe with')
+def r02_17(ctx):
+    F = ctx.F
+    b = ctx.method(SOCK, 'process')
+    sites = [x[0] for x in b.calls() if (b.callee_name(x[1]) or '').endswith('Timer::set_for_zero_window_probe')]
+    ctx.need(sites, "set_for_zero_window_probe in tcp process()")
+    queued = lambda f: (f[0] == 'bool' and f[2] is False and is_call(strip(f[1]), '::is_empty') and any(l.endswith('.tx_buffer') for l in leafs(f[1]))) or \
+        (f[0] == 'rel' and f[1] in ('Ne', 'Gt') and any(l.endswith('.tx_buffer') for l in leafs(f[2])) and const_of(strip(f[3])) == 0)
+    bad = unguarded(F, b, sites, queued)
+    if bad:
+        ctx.bad("tcp::process|probe-timer-armed-without-data", "process() can arm the zero-window-probe timer with an empty transmit buffer: a segment that acknowledges everything and announces window 0 "
+                "while the socket enters TIME-WAIT replaces the 10 s close timer (the stop clause then idles it), so TIME-WAIT never ends", body=b, bb=bad[0][0], path=bad[0][1])
+    else:
+        ctx.ok(('process', 'probe timer needs data'), sample=dict(fn='tcp::Socket::process', arms='zero-window-probe timer', behind='!tx_buffer.is_empty()'))
